@@ -13,9 +13,10 @@ Out   == IOEnv.VERIF_OUT
 Depth == IF "VERIF_DEPTH" \in DOMAIN IOEnv THEN atoi(IOEnv.VERIF_DEPTH) ELSE 12
 R(X) == RandomElement(X)
 Labels == {"", "a", "ab", "C", "z", "y", "r", "t", "w", "x", "L", "R", "simple_challenge", "multiproof", "ipa", "input point", "long40"}
-Msgs   == {"", "a", "ab", "b32", "b100", "b1000", "b1023", "b1024", "b1025", "b4096", "b5000", "b70000"}
-Scalars == {"0", "1", "5", "r-1", "r-2", "2^128", "rnd1", "rnd2"}
-Points  == {"gen", "id", "srs0", "srs255", "gen.z2", "gen.flip", "srs7.zrnd", "2gen.proj", "id.flip"}
+\* "mbuf", "sacc", "acc": the driver hands over the SAME slice / scalar variable / element variable each time, changed in place since its last use
+Msgs   == {"", "a", "ab", "b32", "b100", "b1000", "b1023", "b1024", "b1025", "b4096", "b5000", "b70000", "mbuf", "mbuf"}
+Scalars == {"0", "1", "5", "r-1", "r-2", "2^128", "rnd1", "rnd2", "sacc", "sacc"}
+Points  == {"gen", "id", "srs0", "srs255", "gen.z2", "gen.flip", "srs7.zrnd", "2gen.proj", "id.flip", "acc", "acc", "acc"}
 Op(o, l, m) == [op |-> o, label |-> l, arg |-> m]
 VARIABLES prog
 Init == prog = << Op("new", R({"simple_protocol", "multiproof", "test", "", "x"}), "") >>
